@@ -377,6 +377,28 @@ static void k_sbox(void) {            /* rows 'n base' -> checksum read by Rust 
   }
 }
 
+/* ---- kind 14: slices {data, len} BUILT HERE, read and written by Rust.  An empty slice is described the way C code does it: {NULL, 0} (odd base)
+ * or a pointer to nothing in particular with length 0 (even base) ------------------------------------------------------------------------------ */
+extern uint64_t rt_slice_rev(CSliceRefV s, uintptr_t *len_seen);
+extern uintptr_t rt_slicem_rev(CSliceMutV s, uint64_t v);
+static void k_slice_rev(void) {       /* rows 'n base' -> checksum Rust read ; length Rust saw ; elements Rust wrote ; checksum of what C finds afterwards */
+  for (int r = 0; r < nrows; r++) {
+    size_t n = (size_t)rowbuf[r][0] % 512; uint64_t base = (uint64_t)(rowlen[r] > 1 ? rowbuf[r][1] : 1);
+    uint64_t *buf = n ? malloc(n * sizeof(uint64_t)) : ((base & 1) ? NULL : (uint64_t *)&sb_len); uint64_t want = 0;
+    for (size_t i = 0; i < n; i++) { buf[i] = base + i; want = want * 31 + buf[i]; }
+    CSliceRefV s = { buf, n }; uintptr_t seen = 12345;
+    uint64_t got = rt_slice_rev(s, &seen);
+    if (got != want || seen != n) fail("c_built_slice:_rust_read_other_contents_or_another_length");
+    CSliceMutV m = { buf, n };
+    uintptr_t wrote = rt_slicem_rev(m, base ^ 0x55);
+    if (wrote != n) fail("c_built_mutable_slice:_rust_visited_another_number_of_elements");
+    uint64_t after = 0, want2 = 0; for (size_t i = 0; i < n; i++) { after = after * 31 + buf[i]; want2 = want2 * 31 + ((base ^ 0x55) + i); }
+    if (after != want2) fail("c_built_mutable_slice:_rust's_writes_did_not_land_in_the_buffer");
+    row_begin(); row_put((int64_t)got); row_put((int64_t)seen); row_put((int64_t)wrote); row_put((int64_t)after); row_end();
+    if (n) free(buf);
+  }
+}
+
 int main(void) {
   static char line[1 << 20];
   while (fgets(line, sizeof line, stdin)) {
@@ -390,7 +412,7 @@ int main(void) {
     fails[0] = 0; first_row = 1; { static int64_t d[4096]; rt_take_drops(d, 4096); }
     switch (kind) {
       case 1: k_box(); break; case 2: k_arc(); break; case 3: k_vec((int)elem); break; case 4: k_cb((int)elem); break;
-      case 5: k_it((int)elem); break; case 6: k_slice((int)elem); break; case 7: k_tags(); break; case 8: k_sizes(); break; case 9: k_cb_rev((int)elem); break; case 10: k_it_rev((int)elem); break; case 11: k_arc_rev(); break; case 12: k_vec_rev(); break; case 13: k_sbox(); break;
+      case 5: k_it((int)elem); break; case 6: k_slice((int)elem); break; case 7: k_tags(); break; case 8: k_sizes(); break; case 9: k_cb_rev((int)elem); break; case 10: k_it_rev((int)elem); break; case 11: k_arc_rev(); break; case 12: k_vec_rev(); break; case 13: k_sbox(); break; case 14: k_slice_rev(); break;
       default: row_begin(); row_put(-3); row_end();
     }
     printf(" # fails=%s\n", fails[0] ? fails : "-");
